@@ -306,3 +306,39 @@ Proof.
   - intros e [H|[H|[H|[]]]]; try discriminate. inversion H; subst. split; repeat constructor; cbn; intuition discriminate.
   - repeat split; vm_compute; reflexivity.
 Qed.
+
+(* ====================== inet:ipv4-prefix, host bits (RFC 6991) ====================== *)
+(* Value level only: the dotted-quad text is parsed and printed by inet_pton / inet_ntop, which are not modelled;
+   the canonical STRING and the other derived types are checked against an RFC 6991 reference by the DerivedRfc oracle. *)
+
+(* bit i of the stored address is bit i of the written address when i is one of the [l] network bits, else 0 *)
+Theorem C03_ipv4_prefix_host_bits_zero :
+  forall a l i, l <= 32 -> N.testbit (ip4_zero_host a l) i = N.testbit a i && (32 - l <=? i) && (i <? 32).
+Proof. exact ip4_zero_host_bits. Qed.
+Print Assumptions C03_ipv4_prefix_host_bits_zero.
+
+(* zeroing the host bits of a stored (canonical) address changes nothing *)
+Theorem C03_ipv4_prefix_canon_idempotent :
+  forall a l, ip4p_store (fst (ip4p_store a l)) l = ip4p_store a l.
+Proof. intros a l. unfold ip4p_store. cbn [fst]. rewrite ip4_zero_host_idempotent. reflexivity. Qed.
+Print Assumptions C03_ipv4_prefix_canon_idempotent.
+
+(* partial (no text form): two prefixes of the same length are equal values exactly when they agree on the network bits *)
+Theorem C03_ipv4_prefix_eq_iff_canon_partial :
+  forall a b l, l <= 32 -> a < 4294967296 -> b < 4294967296 ->
+  (ip4p_compare (ip4p_store a l) (ip4p_store b l) = true <->
+   forall i, 32 - l <= i -> i < 32 -> N.testbit a i = N.testbit b i).
+Proof. exact ip4p_eq_iff_network. Qed.
+Print Assumptions C03_ipv4_prefix_eq_iff_canon_partial.
+
+(* both ends of the loop: /0 stores 0.0.0.0, /32 keeps the address *)
+Theorem C03_ipv4_prefix_ends :
+  forall a, a < 4294967296 -> ip4_zero_host a 0 = 0 /\ ip4_zero_host a 32 = a.
+Proof. exact ip4_zero_host_ends. Qed.
+Print Assumptions C03_ipv4_prefix_ends.
+
+(* 192.168.254.55/0 -> 0.0.0.0, /8 -> 192.0.0.0, /23 -> 192.168.254.0, /32 unchanged *)
+Example C03_ipv4_prefix_example :
+  ip4p_store 3232300599 0 = (0, 0) /\ ip4p_store 3232300599 8 = (3221225472, 8) /\
+  ip4p_store 3232300599 23 = (3232300544, 23) /\ ip4p_store 3232300599 32 = (3232300599, 32).
+Proof. repeat split; vm_compute; reflexivity. Qed.
